@@ -31,6 +31,7 @@ void do_call(MockType& m, int fn, int a0, int a1, Obs& o, int& argcell, std::str
     case FN_K: { argcell = a0; const MockType& cm = m; const int& r = cm.k(argcell); o.refaddr = &r; o.outcome = OC_RET_REF; break; }  // value read later, only through an address we trust
     case FN_Z: m.z(); o.outcome = OC_RET_VOID; break;
     case FN_V: { vecarg.clear(); vecarg.reserve(3); vecarg.emplace_back(a0); vecarg.emplace_back(a0 + 1); vecarg.emplace_back(a0); m.v(vecarg); o.outcome = OC_RET_VOID; break; }   // (built in place: no copy of an element is ours)
+    case FN_CF: { const MockType& cm = m; o.value = cm.f(a0); o.outcome = OC_RET_INT; break; }   // the const overload of f(int)
     case FN_P: { auto pr = m.p(a0); o.sval = "{ " + std::to_string(pr.first) + ", " + std::to_string(pr.second) + " }"; o.outcome = OC_RET_STR; break; }   // as the library prints a pair
     default: break;
   }
